@@ -5,53 +5,53 @@ that the Go type checker admits over a small universe of types, one function per
 TYPES = [
     ("int", "7", [], None, False, "v"),
     ("string", '"s"', [], None, False, "v"),
-    ("T", "T{3}", [1], None, True, "v.a"),
-    ("*T", "&T{4}", [1, 2], None, False, "v.a"),
-    ("S", 'S{"q"}', [], None, True, "v.b"),
-    ("E", "E(5)", [1, 3], None, True, "int(v)"),
-    ("*E", "pe", [1, 3], None, False, "int(*v)"),
+    ("AT", "AT{3}", [1], None, True, "v.a"),
+    ("*AT", "&AT{4}", [1, 2], None, False, "v.a"),
+    ("AS", 'AS{"q"}', [], None, True, "v.b"),
+    ("AE", "AE(5)", [1, 3], None, True, "int(v)"),
+    ("*AE", "ape", [1, 3], None, False, "int(*v)"),
     ("func(int)", "func(int) {}", [], 0, False, "v != nil"),
-    ("F", "F(func(int) {})", [], 0, True, "v != nil"),
-    ("G", "G(func(int) {})", [1], 0, True, "v != nil"),
+    ("AF", "AF(func(int) {})", [], 0, True, "v != nil"),
+    ("AG", "AG(func(int) {})", [1], 0, True, "v != nil"),
     ("func(string)", "func(string) {}", [], 1, False, "v != nil"),
-    ("H", "H(nil)", [], 1, True, "v == nil"),
+    ("AH", "AH(nil)", [], 1, True, "v == nil"),
 ]
-IFACES = [("any", []), ("I", [1]), ("J", [1, 2]), ("K", [3]), ("L", [1, 3])]
+IFACES = [("any", []), ("AI", [1]), ("AJ", [1, 2]), ("AK", [3]), ("AL", [1, 3])]
 
 PRELUDE = '''package main
 
-type T struct{ a int }
+type AT struct{ a int }
 
-func (T) M1()  {}
-func (*T) M2() {}
+func (AT) M1()  {}
+func (*AT) M2() {}
 
-type S struct{ b string }
-type E int
+type AS struct{ b string }
+type AE int
 
-func (E) M1() {}
-func (E) M3() {}
+func (AE) M1() {}
+func (AE) M3() {}
 
-type F func(int)
-type G func(int)
+type AF func(int)
+type AG func(int)
 
-func (G) M1() {}
+func (AG) M1() {}
 
-type H func(string)
+type AH func(string)
 
-type I interface{ M1() }
-type J interface {
+type AI interface{ M1() }
+type AJ interface {
 	M1()
 	M2()
 }
-type K interface{ M3() }
-type L interface {
+type AK interface{ M3() }
+type AL interface {
 	M1()
 	M3()
 }
 
-var pe = new(E)
+var ape = new(AE)
 
-func guard(name string, f func()) {
+func aguard(name string, f func()) {
 	defer func() {
 		if e := recover(); e != nil {
 			println(name, "PANIC")
@@ -70,7 +70,7 @@ def cases():
     """(static iface index, dyn type index or None, target ('c', ti) | ('i', ii), commaok)"""
     out = []
     for si, (sn, sreq) in enumerate(IFACES):
-        if sn == "K":
+        if sn == "AK":
             continue
         dyns = [None] + [i for i, t in enumerate(TYPES) if impl(t[2], sreq)]
         targets = [("c", i) for i, t in enumerate(TYPES) if impl(t[2], sreq)] + [("i", i) for i in range(len(IFACES))]
@@ -81,7 +81,7 @@ def cases():
     return out
 
 
-def program(cs):
+def program(cs, entry="main"):
     fs, calls = [], []
     for n, (si, d, tg, ok) in enumerate(cs):
         sname = IFACES[si][0]
@@ -93,12 +93,12 @@ def program(cs):
         arg = "nil" if d is None else TYPES[d][1]
         show = TYPES[tg[1]][5] if tg[0] == "c" else "v != nil"
         if ok:
-            zero = {"int": "v == 0", "string": 'v == ""', "T": "v == T{}", "S": "v == S{}", "E": "v == 0"}.get(tname, "v == nil")
+            zero = {"int": "v == 0", "string": 'v == ""', "AT": "v == AT{}", "AS": "v == AS{}", "AE": "v == 0"}.get(tname, "v == nil")
             body = ("v, ok := a%d(%s)\n\t\tif ok {\n\t\t\tprintln(\"a%d ok\", %s)\n\t\t} else {\n\t\t\tprintln(\"a%d notok\", %s)\n\t\t}" % (n, arg, n, show, n, zero))
         else:
             body = "v := a%d(%s)\n\t\tprintln(\"a%d ok\", %s)" % (n, arg, n, show)
-        calls.append("\tguard(\"a%d\", func() {\n\t\t%s\n\t})\n" % (n, body))
-    return PRELUDE + "\n" + "\n".join(fs) + "\nfunc main() {\n" + "".join(calls) + "}\n"
+        calls.append("\taguard(\"a%d\", func() {\n\t\t%s\n\t})\n" % (n, body))
+    return PRELUDE + "\n" + "\n".join(fs) + "\nfunc %s() {\n" % entry + "".join(calls) + "}\n"
 
 
 def coq_desc(i):
